@@ -22,7 +22,8 @@ META = {
         "call, never bound in a signature that a public route relies on). "
         "Cache purity: keyed by the complete input string, written only under "
         "_USE_CACHE, and the cached function reads nothing but its argument "
-        "and constants. Not decided: histories as such."),
+        "and constants. Not decided: histories as such."
+        ' Also: class-level containers mutated through instances, cache lookup key is the raw input, parser input does not derive from committed results, frozen MasterConfig fallbacks.'),
     'families': ['ESCAPE', 'GLOBALS', 'PURITY', 'FORWARD', 'DEADPARAM', 'SIB-DEFAULTS'],
 }
 
